@@ -333,7 +333,7 @@ def envA (a : A) (r : Round) : A :=
 theorem sim_env {cfg : Cfg} {a : A} {s : State} (hs : Sim cfg a s) (r : Round) : Sim cfg (envA a r) (envStep s r) := by
   unfold envStep envA
   exact ⟨hs.uids, hs.nacc, by show _ = _; rw [hs.nacc, hs.fail], hs.buf, hs.live, hs.mods, hs.w, hs.logIn, hs.logOut,
-    hs.logConn, hs.logNodup, hs.logBound, hs.idxIn, hs.idxPos⟩
+    hs.logConn, hs.logNodup, hs.logBound, hs.idxIn, hs.idxPos, minv_same hs.minv rfl rfl⟩
 
 /-- the connections the Spec considers alive are the table entries -/
 theorem liveList_contains {cfg : Cfg} {a : A} {s : State} (hs : Sim cfg a s) (u : Nat) (hu : u ≠ 0) :
@@ -416,12 +416,38 @@ theorem sim_accept {cfg : Cfg} {a : A} {s : State} (hs : Sim cfg a s) (wA wM : L
     · simp only [hv, if_false]
   refine ⟨?_, by show a.nAccepted + 1 = s.nextUid + 1; rw [hn], hs.fail, hs.buf, fun v hv => ?_, fun v am m h1 h2 => ?_,
     fun v hl => ?_, fun v m h1 h2 => ?_, fun v m h1 h2 => ?_, fun v m h1 h2 => ?_, hs.logNodup,
-    fun u hu => Nat.le_succ_of_le (hs.logBound u hu), fun v m t h1 h2 => ?_, hs.idxPos⟩
-  rotate_right
-  · rw [hfindS] at h1
+    fun u hu => Nat.le_succ_of_le (hs.logBound u hu), fun v m t h1 h2 => ?hidx, hs.idxPos, ?hminv⟩
+  case hidx =>
+    rw [hfindS] at h1
     split at h1
     · cases h1; cases h2
     · exact hs.idxIn v m t h1 h2
+  case hminv =>
+    have hbound : ∀ x ∈ s.mods, x.uid ≤ s.nextUid := by
+      intro x hx
+      cases Nat.lt_or_ge s.nextUid x.uid with
+      | inl hlt =>
+        have h1 := sim_fresh hs x.uid hlt
+        have h2 := find_of_mem (s := s) hs.minv.distinct hx
+        rw [h1] at h2; cases h2
+      | inr hge => exact hge
+    refine ⟨?_, fun m0 hm0 => ?_, fun v m _ hm hc => ?_, hs.minv.ndyn⟩
+    · show ((s.mods ++ [({ uid := s.nextUid + 1 } : Module)]).map (·.uid)).Nodup
+      rw [List.map_append]
+      refine List.nodup_append.mpr ⟨hs.minv.distinct, by simp, ?_⟩
+      intro a ha b hb
+      simp only [List.map_cons, List.map_nil, List.mem_singleton] at hb
+      obtain ⟨x, hx, rfl⟩ := List.mem_map.mp ha
+      have := hbound x hx
+      omega
+    · rw [hfindS] at hm0
+      split at hm0
+      · rename_i h0; omega
+      · exact hs.minv.mgr m0 hm0
+    · rw [hfindS] at hm
+      split at hm
+      · cases hm; rfl
+      · exact hs.minv.unconn v m trivial hm hc
   · show (a.mods ++ [({ uid := a.nAccepted + 1 } : AMod)]).map (·.uid) = (List.range (a.nAccepted + 1)).map (· + 1)
     rw [List.map_append, hs.uids, List.range_succ, List.map_append]; rfl
   · rw [hliveA, hfindS, hn]; split
@@ -458,7 +484,7 @@ theorem sim_accept {cfg : Cfg} {a : A} {s : State} (hs : Sim cfg a s) (wA wM : L
 theorem sim_setW {cfg : Cfg} {a : A} {s : State} (hs : Sim cfg a s) (wA wM : List Nat)
     (hw : ∀ v, (a.live v).isSome → (v ∈ wA ↔ v ∈ wM)) : Sim cfg { a with w := wA } { s with wlist := wM } :=
   ⟨hs.uids, hs.nacc, hs.fail, hs.buf, hs.live, hs.mods, hw, hs.logIn, hs.logOut, hs.logConn, hs.logNodup, hs.logBound,
-   hs.idxIn, hs.idxPos⟩
+   hs.idxIn, hs.idxPos, minv_same hs.minv rfl rfl⟩
 
 /-! ## one round, both sides in the same shape -/
 
@@ -806,7 +832,7 @@ theorem init_sim : Inv cfg ({} : A) (init cfg) := by
   have nolog : (init cfg).loggers = [] := List.sublist_nil.mp n.logSub
   refine ⟨rfl, n.nuid.symm, n.fail.symm, n.buf.symm, fun u hu => ?_, fun u am m h1 _ => ?_, fun u hl => ?_, fun u m h1 h2 => ?_,
     fun u m h1 _ => ?_, fun u m h1 h2 => ?_, by rw [nolog]; exact List.nodup_nil, fun u hu => ?_,
-    fun u m t h1 h2 => ?_, fun t u hu => ?_⟩
+    fun u m t h1 h2 => ?_, fun t u hu => ?_, ?_⟩
   · constructor
     · intro h; cases h
     · intro h
@@ -821,6 +847,23 @@ theorem init_sim : Inv cfg ({} : A) (init cfg) := by
   · rw [(only0 u m h1).2.2] at h2; cases h2
   · have := n.idxSub t u hu
     simp [idxGet] at this
+  · refine ⟨?_, fun m0 hm0 => ?_, fun u m _ hm hc => ?_, ?_⟩
+    · exact n.uids.nodup (by simp)
+    · obtain ⟨m1, hm1, hcore⟩ := n.surv 0 m0 hm0 (t.aopen 0 m0 hm0)
+      simp only [State.find, List.find?_cons, List.find?_nil] at hm1
+      split at hm1
+      · cases hm1
+        obtain ⟨e1, e2, _⟩ := core_more hcore
+        exact ⟨e1, e2⟩
+      · cases hm1
+    · obtain ⟨m1, hm1, hcore⟩ := n.surv u m hm (t.aopen u m hm)
+      simp only [State.find, List.find?_cons, List.find?_nil] at hm1
+      split at hm1
+      · cases hm1
+        rw [(core_more hcore).2.2] at hc; cases hc
+      · cases hm1
+    · rw [n.ndyn]
+      exact (Nat.eq_zero_or_pos (maxDyn cfg)).imp id id
 
 include hperm
 
